@@ -415,9 +415,20 @@ fn run_placeholder(st: &mut St, cls: &str, dialect: &str, style: &str, regex: &O
         out.count("config_failed_skipped", 1);
         return;
     };
-    // the regex the templater will use, and its captures on this source
+    // the regex the templater will use, and its captures on this source. A custom regex is read back
+    // from the parsed configuration (the ini reader may cut a value at a comment sign), as `derive_style` does.
     let styles = get_known_styles();
-    let re = match regex {
+    let regex_in_cfg: Option<String> = match regex {
+        Some(r) => {
+            let got = cfg.get("placeholder", "templater").as_map().and_then(|m| m.get("param_regex")).and_then(|v| v.as_string()).map(|x| x.to_string());
+            if got.as_deref() != Some(r.as_str()) {
+                out.count("custom_regex_changed_by_config_reader", 1);
+            }
+            got
+        }
+        None => None,
+    };
+    let re = match &regex_in_cfg {
         Some(r) => match parse_like(styles.values().next().unwrap(), r) {
             Some(x) => x,
             None => {
@@ -492,6 +503,20 @@ fn run_placeholder(st: &mut St, cls: &str, dialect: &str, style: &str, regex: &O
     }
     if caps.is_empty() {
         out.count("files_without_placeholder", 1);
+    }
+    // numbering of positional placeholders among named ones (custom regexes with an optional `param_name`)
+    {
+        let named = caps.iter().filter(|c| c.2.is_some()).count();
+        if named > 0 && named < caps.len() {
+            out.count("files_mixing_named_and_positional_placeholders", 1);
+            let first_named = caps.iter().position(|c| c.2.is_some()).unwrap();
+            if caps[first_named..].iter().any(|c| c.2.is_none()) {
+                out.count("files_with_a_positional_placeholder_after_a_named_one", 1);
+            }
+        }
+        if caps.iter().any(|c| c.2.as_deref() == Some("")) {
+            out.count("files_with_an_empty_placeholder_name", 1);
+        }
     }
     out.count("placeholders", caps.len());
 
@@ -670,6 +695,50 @@ fn placeholder(rng: &mut Rng, style: &str, k: usize) -> (String, String) {
         }
         "apache_camel" => (format!(":#${{{}}}", name), name),
         "custom_named" => (format!("__{}__", name), name),
+        // custom regexes whose `param_name` group is optional: one file holds named and positional placeholders
+        "custom_mixed_qmark_colon" => match rng.below(5) {
+            0 | 1 => ("?".to_string(), format!("{}", k)),
+            2 => (format!(":{}", num), num),
+            _ => (format!(":{}", name), name),
+        },
+        "custom_mixed_pyformat" => {
+            if rng.chance(1, 2) {
+                ("%s".to_string(), format!("{}", k))
+            } else {
+                (format!("%({})s", name), name)
+            }
+        }
+        "custom_mixed_braces" => {
+            if rng.chance(1, 2) {
+                ("${}".to_string(), format!("{}", k))
+            } else {
+                (format!("${{{}}}", name), name)
+            }
+        }
+        "custom_mixed_numeric" => {
+            if rng.chance(1, 2) {
+                ("?".to_string(), format!("{}", k))
+            } else {
+                (format!("${}", num), num)
+            }
+        }
+        // other capture groups beside `param_name` (named and unnamed, one of them optional)
+        "custom_extra_groups" => {
+            let sigil = if rng.chance(1, 2) { "@" } else { "!" };
+            if rng.chance(1, 3) {
+                (format!("{}t.{}", sigil, name), name)
+            } else {
+                (format!("{}{}", sigil, name), name)
+            }
+        }
+        // the named group may match the empty string: a *named* placeholder whose name is ""
+        "custom_empty_name" => {
+            if rng.chance(1, 2) {
+                ("~".to_string(), String::new())
+            } else {
+                (format!("~{}", name), name)
+            }
+        }
         _ => ("@@".to_string(), format!("{}", k)), // custom_positional
     }
 }
@@ -734,15 +803,27 @@ fn pieces(s: &str) -> Vec<String> {
 const STYLES: &[&str] = &[
     "colon", "colon_nospaces", "numeric_colon", "pyformat", "dollar", "flyway_var", "question_mark", "numeric_dollar", "percent", "ampersand", "apache_camel",
     "custom_named", "custom_positional",
+    "custom_mixed_qmark_colon", "custom_mixed_pyformat", "custom_mixed_braces", "custom_mixed_numeric", "custom_extra_groups", "custom_empty_name",
 ];
+
+/// `param_regex` of the custom styles (everything in `STYLES` that is not a built-in style).
+fn custom_regex(style: &str) -> Option<&'static str> {
+    Some(match style {
+        "custom_named" => r"__(?P<param_name>[\w_]+)__",
+        "custom_positional" => "@@",
+        "custom_mixed_qmark_colon" => r"\?|(?<!:):(?P<param_name>\w+)",
+        "custom_mixed_pyformat" => r"%s|%\((?P<param_name>[\w_]+)\)s",
+        "custom_mixed_braces" => r"\$\{(?P<param_name>\w+)?\}",
+        "custom_mixed_numeric" => r"\?|\$(?P<param_name>\d+)",
+        "custom_extra_groups" => r"(?P<sigil>[@!])(\w+\.)?(?P<param_name>\w+)",
+        "custom_empty_name" => r"~(?P<param_name>\w*)",
+        _ => return None,
+    })
+}
 
 fn gen_placeholder(rng: &mut Rng, bases: &[String]) -> Item {
     let style = STYLES[rng.below(STYLES.len())];
-    let regex = match style {
-        "custom_named" => Some(r"__(?P<param_name>[\w_]+)__".to_string()),
-        "custom_positional" => Some("@@".to_string()),
-        _ => None,
-    };
+    let regex = custom_regex(style).map(|r| r.to_string());
     let base = &bases[rng.below(bases.len())];
     let mut ps = pieces(base);
     let n = [0, 1, 1, 2, 2, 3, 4][rng.below(7)];
@@ -872,6 +953,17 @@ fn ph(style: &str, src: &str, vals: &[(&str, Val)]) -> Item {
     }
 }
 
+/// regression input for one of the custom regexes of `custom_regex`
+fn phc(style: &str, src: &str, vals: &[(&str, Val)]) -> Item {
+    match ph(style, src, vals) {
+        Item::Placeholder { cls, dialect, style, src, vals, .. } => {
+            let regex = custom_regex(&style).map(|r| r.to_string());
+            Item::Placeholder { cls, dialect, style, regex, src, vals }
+        }
+        other => other,
+    }
+}
+
 pub fn main(args: &Args) {
     silence_panics();
     if args.extra.iter().any(|a| a == "--legacy") {
@@ -898,6 +990,13 @@ pub fn main(args: &Args) {
             ph("colon", "SELECT :x,\n   b  from t\n", &[("x", Val::I(1))]),
             ph("colon", "SELECT :param_style", &[]),
             ph("question_mark", "SELECT ?, ? FROM t WHERE a = ?", &[("1", Val::S("'a'".into())), ("3", Val::I(3))]),
+            // custom regexes: named and positional placeholders in one file, names colliding with positions,
+            // other capture groups, an empty name
+            phc("custom_mixed_qmark_colon", "SELECT :a, ?, :1, ? FROM t WHERE b = ?\n", &[("1", Val::I(10)), ("2", Val::S("'two'".into())), ("a", Val::S("x, y".into()))]),
+            phc("custom_mixed_braces", "SELECT ${}, ${n1}, ${} FROM ${}\n", &[("2", Val::S("b".into())), ("n1", Val::S("".into()))]),
+            phc("custom_mixed_pyformat", "SELECT %(x)s FROM t WHERE a = %s AND b = %(y)s AND c = %s\n", &[("1", Val::I(-7)), ("x", Val::S("a, b".into()))]),
+            phc("custom_extra_groups", "SELECT @x, !t.y FROM @tt.user_id", &[("y", Val::S("'2020-01-01'".into()))]),
+            phc("custom_empty_name", "SELECT ~, ~x, a~ FROM t", &[("x", Val::I(1))]),
         ];
         for r in reg {
             let s = rng.next();
@@ -915,7 +1014,7 @@ pub fn main(args: &Args) {
                 }
             }
         }
-        let (n_ph, n_syn, n_mal) = if args.thorough() { (30000, 30000, 3000) } else { (1800, 2000, 200) };
+        let (n_ph, n_syn, n_mal) = if args.thorough() { (36000, 30000, 3000) } else { (2400, 2000, 200) };
         for _ in 0..n_ph {
             let it = gen_placeholder(&mut rng, &bases);
             let s = rng.next();
